@@ -53,7 +53,7 @@ Proof. intros Hj. do 8 (destruct j0 as [|j0]; [reflexivity|]). lia. Qed.
 
 (** [(index >> uint(ithU8 - 8)) & 0x7f]: the cumulative count below byte [j0] (0 for [j0 = 0]: the shift count wraps
     to 2^64 - 8 and the shift gives 0) *)
-Lemma prev_count w (j0 : nat) : 0 <= w < 2 ^ 64 -> (j0 < 8)%nat ->
+Lemma prev_count w (j0 : nat) : 0 <= w < 2 ^ 64 -> (j0 <= 8)%nat ->
   Z.land (shr64 (indexSelectU64 w) (u64 (8 * Z.of_nat j0 - 8))) 127 = popcount (w mod 2 ^ (8 * Z.of_nat j0)).
 Proof.
   intros Hw Hj. destruct j0 as [|j].
@@ -82,7 +82,7 @@ Lemma sel_case w k (j0 : nat) : 0 <= w < 2 ^ 64 -> (j0 < 8)%nat ->
   selectU64Indexed w (indexSelectU64 w) k = Some (spec_selectU64 w k).
 Proof.
   intros Hw Hj HB Hk. unfold selectU64Indexed. cbv zeta. rewrite HB, ithU8_value by exact Hj.
-  rewrite prev_count by assumption.
+  rewrite prev_count by (assumption || lia).
   set (n := (8 * j0)%nat).
   replace (8 * Z.of_nat j0) with (Z.of_nat n) in * by (subst n; lia).
   pose proof (popcount_split_at w n ltac:(lia)) as Hsplit. rewrite Hsplit in Hk.
@@ -124,7 +124,7 @@ Qed.
 
 Lemma bigger_form c0 c1 c2 c3 c4 c5 c6 c7 k :
   0 <= c0 <= 64 -> 0 <= c1 <= 64 -> 0 <= c2 <= 64 -> 0 <= c3 <= 64 ->
-  0 <= c4 <= 64 -> 0 <= c5 <= 64 -> 0 <= c6 <= 64 -> 0 <= c7 <= 64 -> 0 <= k <= 126 ->
+  0 <= c4 <= 64 -> 0 <= c5 <= 64 -> 0 <= c6 <= 64 -> 0 <= c7 <= 64 -> 0 <= k <= 127 ->
   Z.land (u64 (H (map (Z.add 128) [c0; c1; c2; c3; c4; c5; c6; c7]) - u64 (u64 (k + 1) * ones_bytes))) high_bits =
   H (map (gt_flag k) [c0; c1; c2; c3; c4; c5; c6; c7]).
 Proof.
@@ -146,7 +146,7 @@ Proof.
   unfold gt_flag. destruct (Z.leb_spec 128 (128 + c - (k + 1))), (Z.ltb_spec k c); lia.
 Qed.
 
-Lemma bigger_of_cums w k : 0 <= w < 2 ^ 64 -> 0 <= k <= 126 ->
+Lemma bigger_of_cums w k : 0 <= w < 2 ^ 64 -> 0 <= k <= 127 ->
   Z.land (u64 (indexSelectU64 w - u64 (u64 (k + 1) * ones_bytes))) high_bits = H (map (gt_flag k) (cums w)).
 Proof.
   intros Hw Hk. rewrite indexSelectU64_form by exact Hw.
@@ -204,7 +204,7 @@ Theorem selectU64Indexed_spec w k : 0 <= w < 2 ^ 64 -> 0 <= k < popcount w ->
 Proof.
   intros Hw Hk.
   pose proof (popcount_le_64 w Hw) as Hp64.
-  assert (Hk126 : 0 <= k <= 126) by lia.
+  assert (Hk126 : 0 <= k <= 127) by lia.
   pose proof (bigger_of_cums w k Hw Hk126) as HB.
   pose proof (cums_explicit w Hw) as Ecs. cbn [seq map] in Ecs. rewrite Ecs in HB. clear Ecs Hk126 Hp64.
   assert (Hw0 : 0 <= w) by lia.
@@ -226,4 +226,51 @@ Proof.
     change (2 ^ (8 * Z.of_nat 0)) with 1. rewrite Z.mod_1_r. exact Hlo. }
   do 7 (destruct j0 as [|j0]; [apply (sel_case w k _ Hw Hj0 HB); cbn [nth] in Hlo; exact Hlo|]).
   lia.
+Qed.
+
+(** * outside the domain (model theorem only; never compared with the implementation): for [popcount w <= k <= 127]
+      no byte of the index exceeds [k], biggerBits is 0, [ithU8 = 64], the word is shifted out completely and the
+      table is read at the unrelated index [k - popcount w]: the result is [64 + select8Lookup[k - popcount w]],
+      a position >= 64, i.e. never a position inside the word (72 for k - popcount w < 8).  For larger [k] the
+      per-byte subtraction borrows across bytes / the table read panics; nothing is stated. *)
+Lemma table_entries_small : forallb (fun v => (0 <=? v) && (v <=? 8)) select8Lookup = true.
+Proof. vm_compute. reflexivity. Qed.
+
+Lemma table_length : length select8Lookup = 2048%nat.
+Proof. vm_compute. reflexivity. Qed.
+
+Theorem selectU64Indexed_beyond w k : 0 <= w < 2 ^ 64 -> popcount w <= k <= 127 ->
+  let v := nth (Z.to_nat (k - popcount w)) select8Lookup 0 in
+  selectU64Indexed w (indexSelectU64 w) k = Some (64 + v, 0) /\ 0 <= v <= 8.
+Proof.
+  intros Hw Hk v.
+  pose proof (popcount_nonneg w) as Hp0.
+  assert (Hlt : (Z.to_nat (k - popcount w) < length select8Lookup)%nat) by (rewrite table_length; lia).
+  assert (Hv : 0 <= v <= 8).
+  { pose proof table_entries_small as T. rewrite forallb_forall in T.
+    specialize (T v (nth_In _ _ Hlt)). lia. }
+  split; [|exact Hv].
+  assert (HB : Z.land (u64 (indexSelectU64 w - u64 (u64 (k + 1) * ones_bytes))) high_bits = 0).
+  { rewrite bigger_of_cums by (exact Hw || lia).
+    pose proof (cums_length w) as Hlen.
+    assert (Hle : forall j, (j < 8)%nat -> nth j (cums w) 0 <= popcount w).
+    { intros j Hj. rewrite cums_nth by lia.
+      replace (8 * (Z.of_nat j + 1)) with (Z.of_nat (8 * (j + 1)) + 0) by lia.
+      pose proof (rank1_bits64 w (8 * (j + 1)) ltac:(lia) ltac:(lia)) as R. rewrite Z.add_0_r, <- R.
+      unfold rank1. rewrite (popcount_bits64 w Hw). apply count_true_firstn_le. }
+    pose proof (Hle 0%nat ltac:(lia)). pose proof (Hle 1%nat ltac:(lia)). pose proof (Hle 2%nat ltac:(lia)).
+    pose proof (Hle 3%nat ltac:(lia)). pose proof (Hle 4%nat ltac:(lia)). pose proof (Hle 5%nat ltac:(lia)).
+    pose proof (Hle 6%nat ltac:(lia)). pose proof (Hle 7%nat ltac:(lia)). clear Hle.
+    destruct (cums w) as [|c0 [|c1 [|c2 [|c3 [|c4 [|c5 [|c6 [|c7 [|? ?]]]]]]]]]; try discriminate Hlen.
+    cbn [nth] in *. cbn [map]. unfold gt_flag.
+    repeat match goal with |- context [k <? ?c] => destruct (Z.ltb_spec k c); try lia end. reflexivity. }
+  unfold selectU64Indexed. cbv zeta. rewrite HB.
+  change (Z.land (tz64 0) (-8)) with (8 * Z.of_nat 8).
+  rewrite prev_count by (exact Hw || lia).
+  change (8 * Z.of_nat 8) with 64. rewrite (Z.mod_small w) by exact Hw.
+  unfold shr64 at 1. change (64 <? 64) with false. cbv iota.
+  rewrite Z.land_0_l, Z.shiftl_0_l, Z.add_0_l.
+  rewrite !(u64_id (k - popcount w)) by (change (2 ^ 64) with 18446744073709551616; lia).
+  unfold nthZ. destruct (Z.ltb_spec (k - popcount w) 0); [lia|].
+  rewrite (nth_error_nth_Some _ _ 0 Hlt). fold v. f_equal. f_equal. lia.
 Qed.
